@@ -241,6 +241,26 @@ pub mod tls {
         };
     }
 
+    /// end-entity certificate issued by the repo's test CA for the harness (committed under harness/vlib/certs):
+    /// valid for localhost and k0..k3.nts.verif.test, so that SRV targets with different names can be served
+    pub const MULTI_CHAIN_PEM: &[u8] = include_bytes!("../certs/srv_end.fullchain.pem");
+    pub const MULTI_KEY_PEM: &[u8] = include_bytes!("../certs/srv_end.key");
+    thread_local! {
+        static ACCEPTOR_MULTI: TlsAcceptor = {
+            let chain = tls_utils::pemfile::certs(&mut &MULTI_CHAIN_PEM[..]).collect::<Result<Vec<_>, _>>().expect("srv_end.fullchain.pem");
+            let key = tls_utils::pemfile::private_key(&mut &MULTI_KEY_PEM[..]).expect("srv_end.key");
+            let mut cfg: ServerConfig = tls_utils::server_config_builder_with_protocol_versions(&[&TLS13])
+                .with_no_client_auth()
+                .with_single_cert(chain, key)
+                .expect("server cert");
+            cfg.alpn_protocols = vec![b"ntske/1".to_vec()];
+            TlsAcceptor::from(Arc::new(cfg))
+        };
+    }
+    pub fn acceptor_multi() -> TlsAcceptor {
+        ACCEPTOR_MULTI.with(|c| c.clone())
+    }
+
     /// harness-side raw TLS client (plain webpki verification against the repo's test CA)
     pub fn connector() -> TlsConnector {
         CONNECTOR.with(|c| c.clone())
